@@ -1788,6 +1788,8 @@ def history_part(ctx, fails, info, cases=None):
         lab = getattr(fam, 'label', fam.name)
         ctx.count('class:' + lab)
         ctx.count('style:' + c['style'])
+        if 'fw' in c['cfg']:
+            ctx.count('weights=' + ('fw column' if c['cfg']['fw'] else 'None'))
         ctx.count('length:%d' % len(c['ops']))
         for o in c['ops']:
             ctx.count('call:' + o[0])
